@@ -3,8 +3,9 @@
 package c02
 
 import (
-	"fmt"
 	"bytes"
+	"fmt"
+	"io"
 	"strings"
 	"testing"
 
@@ -309,6 +310,36 @@ var prop = vh.Define("C02", "roundtrip", func(c Case, r *vh.R) {
 		return
 	}
 
+	// ---- the other door: the file read in parts. ReadExchange is "prologue, then the rest of the
+	// reader is the payload"; a caller who streams the payload does the same by hand with the
+	// exported ReadExchangePrologue, so the prologue call must take exactly the prologue's octets
+	// from ANY reader and what follows in that reader must be the payload.
+	{
+		src3 := gen.Source(file, c.ReadMode)
+		e3, err := signedexchange.ReadExchangePrologue(src3)
+		if err != nil {
+			gen.Recycle(src3)
+			r.Failf("read-error", "ReadExchangePrologue rejects a file that ReadExchange accepts: %v", err)
+			return
+		}
+		rest, rerr := io.ReadAll(src3)
+		gen.Recycle(src3)
+		if rerr != nil {
+			r.Failf("read-error", "reading the payload behind ReadExchangePrologue: %v", rerr)
+			return
+		}
+		if !bytes.Equal(rest, e.Payload) {
+			r.Failf("read-differs", "read in parts: after ReadExchangePrologue the reader holds %d octets, the written payload has %d (first difference at %d)", len(rest), len(e.Payload), firstDiff(rest, e.Payload))
+			return
+		}
+		e3.Payload = rest
+		if g3 := sxgkit.CanonOf(e3); !g3.Equal(wantCanon) || e3.SignatureHeaderValue != e.SignatureHeaderValue {
+			r.Failf("read-differs", "read in parts: %v\nwritten       %v", g3, wantCanon)
+			return
+		}
+		r.Class("read-in-parts")
+	}
+
 	// ---- verdicts (payloads obtained before the write are judged only now, after other
 	// exchanges have been verified in between: a returned payload must not alias reused state)
 	sxgkit.Disturb()
@@ -467,4 +498,17 @@ func TestLimits(t *testing.T) {
 			return
 		}
 	}
+}
+
+func firstDiff(a, b []byte) int {
+	n := len(a)
+	if len(b) < n {
+		n = len(b)
+	}
+	for i := 0; i < n; i++ {
+		if a[i] != b[i] {
+			return i
+		}
+	}
+	return n
 }
